@@ -210,6 +210,73 @@ def f3_run(carve):
     return _enum_outcome("tables and expressions do not alias mutable containers passed by the caller (dicts / lists given to rename, join, map, partition_by, arrange, filter, Table)", n, bad)
 
 
+def f4_run(carve):
+    """export / build_query / show_query / collect are observers: a table can be exported any number of times with the same
+    result, and its AST reads the same afterwards (native; SQL and Polars)"""
+    import warnings
+
+    from .. import pipelines as P
+    from .c13 import _enum_outcome
+
+    n, bad = 0, []
+    B = {st.label: st for st in P.steps()}
+    E = {st.label: st for st in P.expr_steps()}
+    mk = P.Step
+    extra = [
+        [B["arrange(a.nl,h)"], mk("mutate(rn=row_number())", lambda x, c: x >> pdt.mutate(rn=pdt.row_number(), sh=x.h.shift(1)), "keep", ("h",), True, False)],
+        [B["group_by(a)"], B["arrange(h.desc)"], mk("mutate(rn=row_number())", lambda x, c: x >> pdt.mutate(rn=pdt.row_number()), "keep", ("h",), True, False)],
+        [B["mutate(w=row_number)"], B["alias"], B["filter(a>1)"]],
+        [B["left_join(u)"], B["mutate(x=a+h)"]],
+        [B["union(t2)"], B["filter(a>1)"]],
+        [B["group_by(a)"], B["summarize(n,m)"], B["filter(a>1)"]],
+        [B["arrange(a.nl,h)"], B["slice_head(3,1)"], B["alias"], B["summarize(sa)"]],
+        [E["case/coalesce"], E["string"]],
+        [E["agg_window(part_f)"], B["arrange(h.desc)"]],
+    ]
+    pipes = [[st] for st in P.steps()] + extra
+    with warnings.catch_warnings():
+        warnings.simplefilter("ignore")
+        for be in ("polars", "sqlite"):
+            for pipe in pipes:
+                c = P.Ctx(be, "mixed")
+                x = c.t
+                try:
+                    for st in pipe:
+                        if not P._has(x, *st.needs):
+                            raise LookupError
+                        x = st.fn(x, c)
+                        if x is None:
+                            raise LookupError
+                    x = x >> pdt.ungroup()
+                    r0 = x._ast.ast_repr()
+                    first = x >> pdt.export(pdt.Polars())
+                except Exception:  # noqa: BLE001  (rejections / refusals / first-export failures are C14 / C01)
+                    continue
+                n += 1
+                lab = f"[{be}] " + " >> ".join(st.label for st in pipe)
+                try:
+                    q1 = x >> pdt.build_query()
+                    second = x >> pdt.export(pdt.Polars())
+                    q2 = x >> pdt.build_query()
+                    third = x >> pdt.mutate(zz__=1) >> pdt.export(pdt.Polars())
+                    r1 = x._ast.ast_repr()
+                except (pdt.errors.SubqueryError, pdt.errors.NotSupportedError):
+                    continue
+                except Exception as ex:  # noqa: BLE001
+                    bad.append(f"{lab}: after one export the table cannot be used again: {type(ex).__name__}: {str(ex)[:140]}")
+                    continue
+                key = lambda df: sorted(map(str, df.rows()))  # noqa: E731
+                if first.columns != second.columns or key(first) != key(second):
+                    bad.append(f"{lab}: the second export differs from the first")
+                if q1 != q2:
+                    bad.append(f"{lab}: build_query gives another text after an export")
+                if r0 != r1:
+                    bad.append(f"{lab}: the AST of the table reads differently after export / build_query")
+                if third.columns[:-1] != first.columns:
+                    bad.append(f"{lab}: a verb applied after an export sees other columns")
+    return _enum_outcome("export / build_query leave the table unchanged: repeated exports agree, the query text and the AST are stable, the table stays usable", n, bad)
+
+
 def obligations(tier):
     fi = H.fn_info
     obs = []
@@ -230,6 +297,9 @@ def obligations(tier):
             for backend in ("polars", "sql"):
                 obs.append(Obligation(f"C10/F2/{backend}/{skel}/{label}", "F2", f"{label}: inputs unchanged ({backend})", make_f2(pf, label, f2, backend), functions=[fi(TS.Cache.update)],
                                       bounded=f"table width {skel.w}; dynamic fingerprint on all symbolic paths"))
+    obs.append(Obligation("C10/F4/observers", "F4", "export / build_query are observers (repeated exports agree; the table stays usable and reads the same)", f4_run,
+                          functions=[fi(pdt._internal.pipe.verbs.export), fi(pdt._internal.pipe.verbs.build_query), fi(H.sql_backend.SqlImpl.compile_ast), fi(H.verbs_tree.Verb._clone) if hasattr(H, "verbs_tree") else fi(pdt._internal.pipe.verbs.export)],
+                          bounded="36 pipelines x 2 backends (native execution)"))
     obs.append(Obligation("C10/F3/caller_containers", "F3", "no aliasing of caller-owned mutable containers (dicts / lists passed to verbs and expression methods)", f3_run,
                           functions=[fi(pdt._internal.pipe.verbs.rename), fi(pdt._internal.pipe.verbs.join), fi(H.col_expr_mod.ColExpr.map), fi(H.col_expr_mod.ColFn.__init__)], bounded="11 call shapes x 2 backends (native execution)"))
     ls, rs = TS.Skeleton(("vis", "hid")), TS.Skeleton(("vis",))
